@@ -782,6 +782,8 @@ class ClientSession:
                         ):
                             method = hdrs.METH_GET
                             data = None
+                            # The body is dropped, so is its framing.
+                            chunked = None
                             if headers.get(hdrs.CONTENT_LENGTH):
                                 headers.pop(hdrs.CONTENT_LENGTH)
                         else:
